@@ -46,6 +46,23 @@ CHECKS = {
         "here. PTO at closing start is read from the recovery object.",
         "DESIGN.md §4 C09",
     ),
+    "C11": (
+        "model_checking",
+        "explicit-state BFS (history replay) + exhaustive sequence enumeration of the real tls.Context against a key-holding adversary",
+        "A key-holding adversary built on an independent TLS 1.3 implementation (reftls, from RFC 8446) drives "
+        "the real tls.Context: every handshake state x every message kind (state x type table), BFS to "
+        "closure over canonical context states per variant (full, PSK offered/selected/never-offered, "
+        "certificate request, server with/without client-cert request), and every ordering of every "
+        "sub-multiset of the server and client flights with correct MACs over the transcript as accepted. "
+        "Oracle: RFC 8446 next-message table (wrong type => unexpected_message alert, no state change, no "
+        "keys), completion only along legal authentic flights, key-release ledger. The property quantifies "
+        "over all states x all orderings; these spaces are finite and are enumerated completely.",
+        "quick: 584-cell table, closure of 5 variants, 326/16 orderings x CertificateVerify strengths + a "
+        "seed-selected 1/16 slice of multiplicity-2 sequences; thorough: all multiplicity<=2 sequences "
+        "(length <= 7). 0-RTT worlds excluded; HelloRetryRequest only required to be harmless when refused; "
+        "the QUIC-level confirmation is covered by C03/C05 worlds. `cryptography` primitives are trusted.",
+        "DESIGN.md §4 C11",
+    ),
     "C12": (
         "model_checking",
         "stateless deviation-bounded DFS over two real endpoints (NetSim) with a wire-level ACK monitor",
